@@ -201,6 +201,10 @@ def run_check(prop, tier, seed):
     env['TREETOOLS_VERIF'] = '1'
     env['PYTHONPATH'] = HERE + os.pathsep + env.get('PYTHONPATH', '')
     env['PYTHONDONTWRITEBYTECODE'] = '1'
+    # the code under test leaves files in the directory for temporary files
+    # (misc.gunzip): keep them inside the scratch area, which is removed
+    env['TMPDIR'] = os.path.join(tmp, 'tmpdir')
+    os.mkdir(env['TMPDIR'])
     watchdog = float(os.environ.get('VT_WATCHDOG', '0')) or \
         oracle.WATCHDOG[tier]
     procs = []
